@@ -157,6 +157,17 @@ func genE2E(t *rapid.T) e2eCase {
 	if c.Grep && rapid.IntRange(0, 3).Draw(t, "ctx") == 0 {
 		c.Before = rapid.IntRange(1, 3).Draw(t, "before")
 	}
+	if rapid.Bool().Draw(t, "lr1") && rapid.Bool().Draw(t, "lr2") && rapid.Bool().Draw(t, "lr3") {
+		// a single file whose read lasts longer than the reader's 3 s housekeeping tick (truncation check), because the
+		// consumer stalls early in the stream
+		c.Shape = "glob"
+		c.Files = []fileSpec{{Lines: rapid.SampledFrom([]int{1000, 5000}).Draw(t, "lr-lines"), LenK: rapid.IntRange(1, 2).Draw(t, "lr-lenk"),
+			Comp: rapid.SampledFrom([]string{"", ".gz", ".zst"}).Draw(t, "lr-comp")}}
+		c.NoFinalNL = rapid.Bool().Draw(t, "lr-nonl")
+		c.SSH = rapid.IntRange(0, 2).Draw(t, "lr-ssh") == 0
+		tot := c.Files[0].Lines * lenClasses[c.Files[0].LenK]
+		c.Pace = pace{Kind: "stalls", Chunk: 4096, Pipe: 4096, Stalls: []Stall{{At: tot / rapid.SampledFrom([]int{20, 10, 3}).Draw(t, "lr-at"), Ms: 3500}}}
+	}
 	return c
 }
 
@@ -427,6 +438,9 @@ func runE2E(c e2eCase, firstLook bool) (o lib.Outcome, timedOut bool) {
 	}
 	if c.NoFinalNL {
 		o.Classes = append(o.Classes, "unterminated-last-line")
+	}
+	if len(c.Files) == 1 && c.Files[0].Lines >= 1000 && len(c.Pace.Stalls) > 0 && c.Pace.Stalls[0].Ms >= 3500 && c.Pace.Stalls[0].At > 0 {
+		o.Classes = append(o.Classes, "read-longer-than-3s")
 	}
 	if c.SSH {
 		o.Classes = append(o.Classes, "ssh")
